@@ -62,6 +62,7 @@ def ws2dwcv(y, nodata, llas, robust, out, lopt):
         robust_gcv = []
 
         gcv_temp = [1e15, 0]
+        y_temp = z
         for it in range(r_its):
             if it > 1:
                 lambda_range = np.array([robust_gcv[1][1]])
